@@ -7,6 +7,7 @@ package api
 // continuation that is itself a valid query.
 
 import (
+	"github.com/resonatehq/resonate/internal/kernel/t_api"
 	"github.com/resonatehq/resonate/internal/vx"
 	"github.com/resonatehq/resonate/pkg/promise"
 )
@@ -53,6 +54,12 @@ func VH_A_SearchPromisesCursor() {
 	if err != nil {
 		vx.Reach("refused")
 		vx.Assert(req == nil, "C14:refused-cursor-yields-no-request")
+		// a cursor the server itself issued (validly signed, continuing a valid query: a pattern, at least one
+		// state, a page size of 1..100) is never refused, or the traversal could not be completed
+		if vx.JwtOutcome() == "valid" {
+			n, _ := vx.JwtClaimsNext().(*t_api.SearchPromisesRequest)
+			vx.Assert(vx.Not(vx.And(n != nil, vhCursorOK(n))), "C14:a-cursor-the-server-issued-is-accepted")
+		}
 		return
 	}
 	_ = promise.Pending
@@ -81,4 +88,11 @@ func VH_A_SearchSchedulesReq() {
 	vx.Assert(req.Tags != nil && vx.MapEq(req.Tags, tags), "C14:tag-filter-passed-unaltered")
 	vx.Assert(req.Limit == vx.IteInt(limit == 0, 100, limit), "C14:page-size-as-requested-or-100")
 	vx.Assert(req.SortId == nil, "C14:first-page-has-no-position")
+}
+
+func vhCursorOK(n *t_api.SearchPromisesRequest) bool {
+	if n == nil {
+		return false
+	}
+	return vx.And(n.Id != "", len(n.States) > 0, n.Limit >= 1, n.Limit <= 100)
 }
